@@ -146,10 +146,10 @@ func TestC05(t *testing.T) {
 // C01: per-pipeline concurrency limit is never exceeded.
 func TestC01(t *testing.T) {
 	cfg := &Cfg{Prop: "C01", MaxPipelines: 2, MaxTasks: 3, DelayPct: 30, ReplacePct: 25, CyclicPct: 12, ReservedPct: 12, AllowFailPct: 15, ContinuePct: 30,
-		LimitChoices: []int{-1, -1, -1, 2, 3, 1}, Weights: map[string]int{"schedule": 36, "cancel": 9, "finish": 30, "timer": 10, "hold": 4, "release": 6, "reload": 5, "scheduleCompleting": 4},
+		LimitChoices: []int{-1, -1, -1, 2, 3, 1}, Weights: map[string]int{"schedule": 36, "cancel": 9, "finish": 30, "timer": 10, "hold": 4, "release": 6, "reload": 5, "scheduleCompleting": 4, "save": 3},
 		Armed: map[string]bool{"C01": true}}
 	runHistories(t, histOpts{cfg: cfg, failPct: 20,
-		rule: "stateful rapid histories incl. reload (limits raised/lowered), reserved-variable and cyclic jobs, hold/release, failures, out-of-order timers, schedule requests while a job completes; invariants evaluated at every event of the task-runner log: jobs executing after each start <= concurrency in force, every task interval inside its job's executing span, completion reported only with no task open, no second start; non-trivial = the limit was binding (a request queued or rejected while jobs ran) and a queued job was started later; distinct by action trace",
+		rule: "stateful rapid histories incl. reload (limits raised/lowered, pipelines removed and defined again) and saves in between (which remove the jobs of a pipeline that is not defined), reserved-variable and cyclic jobs, hold/release, failures, out-of-order timers, schedule requests while a job completes; invariants evaluated at every event of the task-runner log: jobs executing after each start <= concurrency in force, every task interval inside its job's executing span, completion reported only with no task open, no second start, no start of a job that a save had removed while it waited; non-trivial = the limit was binding (a request queued or rejected while jobs ran) and a queued job was started later; distinct by action trace",
 		nontrivial: func(c map[string]int) bool {
 			return (c["schedule:queue"] > 0 || c["schedule:replace"] > 0 || c["schedule:reject"] > 0) && c["dequeue-start"] > 0
 		}})
@@ -191,7 +191,7 @@ func TestC04(t *testing.T) {
 
 // C06: queued jobs start in the order they were accepted.
 func TestC06(t *testing.T) {
-	cfg := &Cfg{Prop: "C06", MaxPipelines: 1, MaxTasks: 2, DelayPct: 35, ReplacePct: 0, CyclicPct: 8, ReservedPct: 12, Retention: true,
+	cfg := &Cfg{Prop: "C06", MaxPipelines: 1, MaxTasks: 2, DelayPct: 35, ReplacePct: 20, CyclicPct: 8, ReservedPct: 12, Retention: true,
 		LimitChoices: []int{-1, -1, -1, 3}, Weights: map[string]int{"schedule": 40, "cancel": 12, "finish": 30, "timer": 14, "hold": 2, "release": 3, "scheduleCompleting": 6, "saveRetention": 5},
 		Armed: map[string]bool{"C06": true}}
 	runHistories(t, histOpts{cfg: cfg, failPct: 20,
